@@ -20,13 +20,13 @@ TECH = {
     "C09": "MIR dominance + who-may-call on the out-of-range path; exhaustive enumeration of the orderings of (node start, node end, start bound, end bound) against the path table of the range test; abstract block-indent levels composed over the range-only visitor's call graph (R-INDENT); table-field walkers of the range-only visitor honour ignore directives; R-ONCE (formatted nodes carry no positions); out-of-range statements handed to the dispatching formatter (R-SKIP(h) path table); R-RANGE(toggle)",
     "C10": "MIR who-may-construct whitespace tokens, per-path constant audit of newline/indent literals, postcondition of the EOF whitespace trimmer on every return path, sanitiser-caller table; summary-based taint analysis of raw input trivia to the trivia sinks (R-RAW) with the sanitiser's postcondition; frozen comment guards (R-GUARD); builder chains over cloned input nodes replace every field (R-BUILDER, ADT field lists); R-PRINT; toggle pairing on the last statement (R-SKIP(d)); closures of formatters never return bare clones of input nodes (R-RAWNODE(closure))",
     "C11": "MIR decision-table extraction of option functions vs documented meaning, must-call siblings; quoted-string path clause; look-ahead table of the call formatter; both directions of the call-parentheses decision (three-valued documented conditions); measurement copies never returned (R-OPT(measure)); R-RAWNODE(closure)",
-    "C12": "MIR who-may-call sort, stable-sort callee, gating as a path property, first-iteration decision table of the grouping (previous part x kind x line distance), ignore pairing; (statement, semicolon) pairs moved whole; membership evidence (exactly one name / expression) on every group-member path; frozen table of feature-gated arms of the sorter's predicates (R-ARMS); toggle walk dominates every emit and forms one state (R-SORT(toggle)); the sort pass rewrites leading trivia only",
+    "C12": "MIR who-may-call sort, stable-sort callee, gating as a path property, first-iteration decision table of the grouping (previous part x kind x line distance), ignore pairing; (statement, semicolon) pairs moved whole; membership evidence (exactly one name / expression) on every group-member path; frozen table of feature-gated arms of the sorter's predicates (R-ARMS); toggle walk dominates every emit and forms one state (R-SORT(toggle)); the sort pass rewrites leading trivia only; every statement lands in a partition (R-GROUP(total))",
     "C13": "MIR who-may-write file system / exit status, dominance by !opt.check, atomic-monotone status writes; verification flag wiring; exact no-difference tests of the diff producers (R-DIFFNONE); path table of check-mode verdicts (Complete only on create_diff's None; R-CHECKVERDICT); diff arguments as read (R-DIFFARGS); every Err edge of the output thread raises the status (R-ERRSTATUS); exit status raised by direct stores only, also for the walker (R-ERRSTATUS after F24); R-EXACTREAD",
-    "C14": "MIR dominance: write only after Ok and difference; one send per worker; output loop has no early exit; verification flag wiring; build-manifest rule (no panic = abort profile); format only on the parser's Ok edge (R-PARSE); job only inside the pool (R-WORKERS(pool)); no lossy decoding of the input (R-EXACTREAD); panic_count of the pool that runs the jobs; R-ERRSTATUS direct stores; verification level chosen by opt.verify alone (named violation)",
+    "C14": "MIR dominance: write only after Ok and difference; one send per worker; output loop has no early exit; verification flag wiring; build-manifest rule (no panic = abort profile); format only on the parser's Ok edge (R-PARSE); job only inside the pool (R-WORKERS(pool)); no lossy decoding of the input (R-EXACTREAD); panic_count of the pool that runs the jobs; R-ERRSTATUS direct stores; verification level chosen by opt.verify alone (named violation); verification copy taken from the parameter (R-VERIFYINPUT)",
     "C15": "MIR provenance of the returned Config (CLI overrides applied last), path table of the upward search stop test, fallback-location rule, constant audit of config file names; search start directory and search root provenance; stdin file path always seeds the search (R-CFG(k) path table); flag-skipped path clause of load_overrides",
     "C16": "MIR dominance of dispatch by de-duplication; constant audit of globs/ignore names; decision table of explicit-path predicate; walker option order; glob override root; primary / fallback position of the two ignore-file lookups; every path argument becomes a walker root; ignore verdict from matched_path_or_any_parents (R-IGNOREMATCH); dispatch guarded by Path::is_file of the entry path",
     "C17": "MIR who-may-write stdout, payload provenance, no fs mutation on the stdin path; configuration search root provenance on the stdin path; pool size bound (R-WORKERS); no lossy decoding of stdin (R-EXACTREAD); override-last on the stdin fallback; R-CFG(k); println only under formats refused without --check; R-IGNOREMATCH; logger target never stdout",
-    "C18": "MIR dataflow: argument order from format_code's result to TextDiff::from_lines, frozen idiom table of exact no-difference tests with polarity, symbolic linear forms of the JSON line numbers over the DiffOp fields, iterator-chain completeness of the mismatch texts (all changes, matching tag), loop-exit structure, unified-diff builder options; the line diff itself (crate similar) is assumed; path table of check-mode verdicts in format_file / format_string (R-CHECKVERDICT); producer bytes unmodified on the way out of create_diff (R-DIFFBYTES)",
+    "C18": "MIR dataflow: argument order from format_code's result to TextDiff::from_lines, frozen idiom table of exact no-difference tests with polarity, symbolic linear forms of the JSON line numbers over the DiffOp fields, iterator-chain completeness of the mismatch texts (all changes, matching tag), loop-exit structure, unified-diff builder options; the line diff itself (crate similar) is assumed; path table of check-mode verdicts in format_file / format_string (R-CHECKVERDICT); producer bytes unmodified on the way out of create_diff (R-DIFFBYTES); derived Serialize of DiffMismatch writes every field (R-DIFFSER)",
     "C19": "static race pattern: lattice-monotone atomic status updates, join-before-read, no shared mutable captures; single writer per file name (R-FS); no static / thread-local state in the library (R-NOSTATE); one job per file (dedup clause of R-WALK); pool parameters independent of the thread count",
     "C20": "MIR + ADT facts: flag/config enum conversions total and name preserving, override wiring field-by-field, deny_unknown_fields in derived visitors, editorconfig mapping table; configuration errors propagated (R-CFGERR); provenance of the path handed to editorconfig::parse (R-EC(path): a file, never the searched directory); EditorConfig-derived Config never stored (R-EC(per-file)); path clause of load_overrides (no flag skipped by an early return)",
 }
